@@ -28,6 +28,11 @@ def main():
     if not os.path.abspath(emsarray.__file__).startswith('/repo/src/'):
         print(f'emsarray imported from {emsarray.__file__}, not /repo/src', file=sys.stderr)
         sys.exit(2)
+    # netCDF4/HDF5 is not thread safe and emsarray reads multi-file datasets with lock=False;
+    # like the repository's own test-suite (tests/conftest.py: disable_dask_threads) every check
+    # runs dask synchronously so that file-based witness replays are deterministic.
+    import dask
+    dask.config.set(scheduler='synchronous')
     seed = int(os.environ.get('VERIF_SEED', '0') or 0)
     mod = importlib.import_module(f'harness.{args.prop.lower()}')
     try:
